@@ -98,7 +98,8 @@ var (
 	c09U = []uint64{1 << 63, 7, 0, math.MaxUint64, 1}
 	c09F = []float64{1.5, 0, -2.5, 7, 1e19, math.NaN(), math.Inf(1)}
 	c09B = []bool{true, false}
-	c09S = []string{"a", "b", ""}
+	// (the last three look like dates: two are not valid timestamps, one is)
+	c09S = []string{"a", "b", "", "2024-01-01-backup", "2024-02-30 00:00:00", "2024-01-01 00:00:00"}
 )
 
 func (l c09leaf) value() interface{} {
@@ -140,7 +141,10 @@ type c09Case struct {
 	Time   *c09Time  `json:"time,omitempty"`
 	Tree   *c09tnode `json:"tree,omitempty"` // nested time arithmetic
 	Zone   int       `json:"zone,omitempty"`
+	Names  int       `json:"names,omitempty"` // 1: the variables are called time, Time, TIME instead of v0, v1, v2
 }
+
+var c09timeNames = []string{"time", "Time", "TIME"}
 
 func (c c09Case) build() (e influxql.Expr, r1, all map[string]interface{}) {
 	r1, all = map[string]interface{}{}, map[string]interface{}{}
@@ -150,6 +154,9 @@ func (c c09Case) build() (e influxql.Expr, r1, all map[string]interface{}) {
 			return l.literal()
 		}
 		name := fmt.Sprintf("v%d", i)
+		if c.Names == 1 {
+			name = c09timeNames[i%3]
+		}
 		all[name] = l.value()
 		if l.Mode == 1 {
 			r1[name] = l.value()
@@ -236,8 +243,16 @@ func c09eval(c c09Case) []ev.Finding {
 	if p, st := try(func() {
 		red = influxql.Reduce(e, influxql.MapValuer(r1))
 		red2 = influxql.Reduce(red, influxql.MapValuer(r1))
+		// the reduced form is evaluated under the remaining bindings only: what was given to Reduce is in it
+		rest := map[string]interface{}{}
+		for k, v := range all {
+			if _, given := r1[k]; !given {
+				rest[k] = v
+			}
+		}
 		ve := influxql.ValuerEval{Valuer: influxql.MapValuer(all), IntegerFloatDivision: true}
-		v1 = ve.Eval(red)
+		vr := influxql.ValuerEval{Valuer: influxql.MapValuer(rest), IntegerFloatDivision: true}
+		v1 = vr.Eval(red)
 		v2 = ve.Eval(e)
 	}); p != nil {
 		return []ev.Finding{{Sig: "panic:" + ev.SigSafe(fmt.Sprint(p)), Witness: wit, Detail: fmt.Sprint(p) + "\n" + st, Case: c, Rank: c.Shape}}
@@ -285,7 +300,7 @@ func c09eval(c c09Case) []ev.Finding {
 			}
 		}
 		out = append(out, ev.Finding{Sig: sig, Witness: wit,
-			Detail: fmt.Sprintf("Eval(Reduce(e,r1), all) = %T(%v) but Eval(e, all) = %T(%v); reduced form %s", v1, v1, v2, v2, red), Case: c, Rank: c.Shape*10 + len(r1)})
+			Detail: fmt.Sprintf("Eval(Reduce(e,r1), the remaining bindings) = %T(%v) but Eval(e, all) = %T(%v); reduced form %s", v1, v1, v2, v2, red), Case: c, Rank: c.Shape*10 + len(r1)})
 	}
 	// the evaluation rules the property names: integer division is float division, division and modulo by zero are zero
 	if (c.Shape == 1 || c.Shape == 6 || c.Shape == 7) && len(c.Leaves) == 2 {
@@ -729,7 +744,7 @@ func c09run(r *ev.Run) {
 			label = fmt.Sprintf("tree|%s|%d", c.Tree.expr().String(), c.Zone)
 		} else if c.Time == nil {
 			e, r1, _ := c.build()
-			label = fmt.Sprintf("%s|%v|%v", e.String(), r1, c.Leaves)
+			label = fmt.Sprintf("%s|%v|%v|%d", e.String(), r1, c.Leaves, c.Names)
 		} else {
 			label = fmt.Sprintf("time|%+v", *c.Time)
 		}
@@ -744,12 +759,19 @@ func c09run(r *ev.Run) {
 	// depth 0 and 1: full value tables
 	for i := range full {
 		run(c09Case{Shape: 0, Leaves: []c09leaf{full[i]}})
+		if full[i].Mode != 0 {
+			run(c09Case{Shape: 0, Leaves: []c09leaf{full[i]}, Names: 1})
+		}
 	}
 	parallelFor(len(full), func(i int) {
 		for j := range full {
 			for o := 0; o < nops; o++ {
 				for _, shape := range []int{1, 6, 7} {
 					run(c09Case{Shape: shape, Ops: []int{o}, Leaves: []c09leaf{full[i], full[j]}})
+				}
+				// a variable is a name like any other, also when the name is that of the time column
+				if full[i].Mode != 0 || full[j].Mode != 0 {
+					run(c09Case{Shape: 1, Ops: []int{o}, Leaves: []c09leaf{full[i], full[j]}, Names: 1})
 				}
 			}
 		}
